@@ -34,7 +34,7 @@ COMPONENTS = {
     "real": ["canopen.nmt (NmtBase, NmtMaster, NmtSlave, tables)", "canopen.Network NMT master", "RemoteNode/LocalNode wiring", "canopen.network.PeriodicMessageTask"],
     "stub": ["CAN backend (SimBus)", "can.Notifier", "threading.Condition and time inside canopen.nmt (simulator primitives, virtual clock)", "python-can cyclic task (SimCyclicTask)"],
 }
-PROBES = ["cmd-own", "cmd-broadcast", "cmd-other", "undefined-cs", "invalid-name", "bootup-byte", "toggle-bit-set", "wait-hb-returned", "wait-hb-timeout",
+PROBES = ["node-guarding-running", "cmd-own", "cmd-broadcast", "cmd-other", "undefined-cs", "invalid-name", "bootup-byte", "toggle-bit-set", "wait-hb-returned", "wait-hb-timeout",
           "wait-bootup-returned", "wait-bootup-timeout", "slave-heartbeat", "device-bootup-inline", "device-bootup-deferred", "waiters-served", "stale-heartbeat-before-wait"]
 # probes that mark an injected disturbance; the runner also counts them as fired faults in the evidence
 FAULT_PROBES = {'stale-heartbeat-before-wait': 'stale-heartbeat',
@@ -90,6 +90,11 @@ class W:
         self.dev_inline = False
 
 
+def _periodic(f):
+    """a frame emitted by a cyclic task (node guarding request), not by the call under observation"""
+    return isinstance(f.origin, tuple) and f.origin[0] == "periodic"
+
+
 def state_name(n):
     return NAMES.get(n)
 
@@ -128,7 +133,7 @@ def _command(ctx, w, csi, tgt):
     what = "command %d to %s" % (cs, ("own id %d" % tid, "all nodes", "other id %d" % tid)[tgt])
     if exc is not None:
         ctx.violation("C11/nmt-call-raised/%s@%s" % (type(exc).__name__, site(exc)), "%s raised %r" % (what, exc))
-    frames = [f for f in w.ch.frames(since=mark) if f.src == "master"]
+    frames = [f for f in w.ch.frames(since=mark) if f.src == "master" and not _periodic(f)]
     if len(frames) != 1 or frames[0].can_id != 0 or frames[0].data != bytes([cs, tid]) or frames[0].rtr:
         ctx.violation("C11/command-frame", "%s put %r on the bus, expected exactly 000#%02x%02x" % (what, frames, cs, tid))
     ctx.run_for(2 * MS)
@@ -166,7 +171,7 @@ def _assign(ctx, w):
         obj.state = name
     _, exc = call(do)
     what = "%s node %d: nmt.state = %r" % (("master", "slave")[side], nid, name)
-    frames = [f for f in w.ch.frames(since=mark) if f.src in ("master", "slave")]
+    frames = [f for f in w.ch.frames(since=mark) if f.src in ("master", "slave") and not _periodic(f)]
     if not valid:
         if not isinstance(exc, ValueError):
             ctx.violation("C11/invalid-name-accepted", "%s: outcome %r" % (what, exc))
@@ -524,6 +529,13 @@ def scenario(ctx):
         for x in (a, b, c):
             _command(ctx, w, x % 10, x // 10)
         return
+    if mode in (0, 2) and ctx.choice(3, "guarding") == 1:
+        # node guarding is running for the node (remote requests on 0x700+id at a fixed rate): commands, heartbeats, boot-up
+        # messages and waits are handled as without it - the toggle bit stays ignored, whatever it is
+        _, exc = call(w.r[w.own].nmt.start_node_guarding, (0.005, 0.05, 1.0)[ctx.choice(3, "guardper")])
+        if exc is not None:
+            ctx.violation("C11/nmt-call-raised/%s@%s" % (type(exc).__name__, site(exc)), "start_node_guarding raised %r" % (exc,))
+        ctx.probe("node-guarding-running")
     if mode == 2:
         for byte in range(256):
             _inject_hb(ctx, w, byte, w.own)
